@@ -414,19 +414,23 @@ func (w *World) M04(rec *ScanRecord) []Violation {
 	return out
 }
 
-// brought: nodes brought into service = untainted + (requested target - real desired at call).
-func brought(gr *GroupRec) (K, R int64, reqs int) {
+// brought: nodes brought into service = untainted + newly requested (requested target minus
+// the real desired capacity at call time; for a fleet the requested total). cloudFailed
+// reports that the cloud (not escalator) refused or failed a request.
+func brought(gr *GroupRec) (K, R int64, reqs int, cloudFailed bool) {
 	K = int64(len(gr.UntaintedNow()))
 	for _, e := range gr.Increase {
-		if !e.OK() {
-			continue
-		}
 		reqs++
 		switch e.Kind {
 		case sim.ASetDesired:
 			R += e.Value - e.PreDesired
 		case sim.ACreateFleet:
-			R += int64(len(e.Returned))
+			R += e.Value
+		}
+	}
+	for _, e := range gr.IncreaseCalls {
+		if !e.OK() {
+			cloudFailed = true
 		}
 	}
 	return
@@ -443,7 +447,10 @@ func (w *World) M05(rec *ScanRecord) []Violation {
 		if ex.Bands != [4]bool{false, false, false, true} {
 			continue
 		}
-		K, R, _ := brought(gr)
+		K, R, _, cloudFailed := brought(gr)
+		if cloudFailed {
+			continue
+		}
 		got := K + R
 		B := w.Bound(rec, gr)
 		cur := cachedDesired(w, rec, gr.G)
@@ -591,7 +598,10 @@ func (w *World) M07(rec *ScanRecord) []Violation {
 		if rec.Faulty() || len(gr.Failed) > 0 {
 			continue
 		}
-		K, R, nreq := brought(gr)
+		K, R, nreq, cloudFailed := brought(gr)
+		if cloudFailed {
+			continue
+		}
 		P := int64(len(gr.GV.Tainted))
 		B := w.Bound(rec, gr)
 		cur := cachedDesired(w, rec, gr.G)
